@@ -531,13 +531,10 @@ static void run_read_fault(const Case& c) {
       any_throw = true;
     }
     faulted = src.cookie.faulted, calls = src.cookie.calls, trunc = src.cookie.truncated;
-    // Reported, not asserted: read_all(FILE*) cannot tell a failed stream read from end of file (its `bytes_read < 0` test
-    // is applied to fread's unsigned count), so after a failed read it returns the prefix delivered so far without
-    // throwing. Whether that is the "silently truncated result" of the statement is for the orchestrator to decide; until
-    // then only the clauses "nothing padded, nothing dropped, no spurious throw" are applied to this helper.
-    bool prefix_only = !any_throw && faulted > 0 && got.size() < content.size();
-    if (prefix_only) ctx().exclude("read_all(FILE*) returns the delivered prefix without throwing after a failed stream read: completeness clause not applied (reported as a possible defect)");
-    check_to_end_after_fault(nm, any_throw, got, content, src.cookie.pos, faulted, err, false);
+    // read_all(FILE*) used to treat a failed stream read as end of file (its `bytes_read < 0` test was applied to fread's
+    // unsigned count) and returned the prefix delivered so far without throwing; repaired in /repo (ferror check), so the
+    // completeness clause applies to this helper as to the other read-to-end helpers.
+    check_to_end_after_fault(nm, any_throw, got, content, src.cookie.pos, faulted, err, true);
   } else if (api == FA_LOAD_FILE) {
     std::string path = scratch() + "/fault.bin";
     write_file_raw(path, content);
